@@ -208,11 +208,25 @@ pub struct NetCase {
     /// on the future being dropped
     #[serde(default)]
     pub hold_server_future: bool,
+    /// the servers are addressed as one host on different ports - `http://o.test` (default port),
+    /// `http://o.test:443`, `http://o.test:8080` - instead of three host names: origins that differ
+    /// in nothing but the port, one of them the other scheme's default
+    #[serde(default)]
+    pub same_host: bool,
     pub pool: Option<NetPool>,
     pub connect_delay: u8,
     pub latency: u8,
     pub buf: u32,
     pub timeout_ms: Option<u16>,
+}
+
+/// Authority under which server `srv` is addressed.
+pub fn authority_of(same_host: bool, srv: usize) -> String {
+    if same_host {
+        ["o.test", "o.test:443", "o.test:8080"][srv % 3].to_string()
+    } else {
+        format!("s{srv}.test")
+    }
 }
 
 pub const METHODS: &[&str] = &["GET", "POST", "PUT", "DELETE", "PATCH", "QUERY"];
@@ -474,7 +488,17 @@ impl tower::Service<http::request::Parts> for RouteTransport {
     }
     fn call(&mut self, req: http::request::Parts) -> Self::Future {
         let host = req.uri.host().unwrap_or("").to_string();
-        let idx = host.strip_prefix('s').and_then(|r| r.strip_suffix(".test")).and_then(|n| n.parse::<usize>().ok());
+        let idx = if host == "o.test" {
+            // one host, routed by effective port
+            match req.uri.port_u16().unwrap_or(80) {
+                80 => Some(0),
+                443 => Some(1),
+                8080 => Some(2),
+                _ => None,
+            }
+        } else {
+            host.strip_prefix('s').and_then(|r| r.strip_suffix(".test")).and_then(|n| n.parse::<usize>().ok())
+        };
         let routes = self.routes.clone();
         let buf = self.buf;
         let delay = self.connect_delay;
@@ -573,6 +597,7 @@ struct SrvCtx {
     upgrades: Vec<bool>,
     /// per request: where it is redirected to (see `redirect_target`)
     redirects: Vec<Option<usize>>,
+    same_host: bool,
 }
 
 async fn handle(ctx: Arc<SrvCtx>, conn: usize, req: http::Request<hyperdriver::Body>) -> Result<http::Response<ChunkBody>, BoxError> {
@@ -615,7 +640,7 @@ async fn handle(ctx: Arc<SrvCtx>, conn: usize, req: http::Request<hyperdriver::B
         problems.push(format!("query {:?} != {want_query:?}", parts.uri.query()));
     }
     // the request names the origin it was sent to: Host header on HTTP/1, :authority on HTTP/2
-    let want_host = format!("s{}.test", ctx.server);
+    let want_host = authority_of(ctx.same_host, ctx.server);
     if parts.version == http::Version::HTTP_2 {
         if parts.uri.authority().map(|a| a.as_str()) != Some(want_host.as_str()) {
             problems.push(format!("HTTP/2 authority {:?} != {want_host}", parts.uri.authority()));
@@ -677,8 +702,8 @@ async fn handle(ctx: Arc<SrvCtx>, conn: usize, req: http::Request<hyperdriver::B
     if let (Some(to), false) = (redirect_to, second_hop) {
         let (p, q) = target_of(id, spec.target);
         let location = match q {
-            Some(q) => format!("http://s{to}.test{p}?{q}&hop=1"),
-            None => format!("http://s{to}.test{p}?hop=1"),
+            Some(q) => format!("http://{}{p}?{q}&hop=1", authority_of(ctx.same_host, to)),
+            None => format!("http://{}{p}?hop=1", authority_of(ctx.same_host, to)),
         };
         return Ok(http::Response::builder().status(303).header(http::header::LOCATION, location).header("x-conn", conn).body(ChunkBody::default()).unwrap());
     }
@@ -921,8 +946,8 @@ fn build_request(case: &NetCase, id: usize, spec: &ReqSpec) -> http::Request<Chu
             .method(METHODS[spec.method as usize % METHODS.len()])
             .version(http::Version::HTTP_11)
             .uri(match q {
-                Some(q) => format!("http://s{srv}.test{p}?{q}"),
-                None => format!("http://s{srv}.test{p}"),
+                Some(q) => format!("http://{}{p}?{q}", authority_of(case.same_host, srv)),
+                None => format!("http://{}{p}", authority_of(case.same_host, srv)),
             })
             .header("x-id", id)
             .header("x-keep", format!("v{id}"))
@@ -943,8 +968,8 @@ fn build_request(case: &NetCase, id: usize, spec: &ReqSpec) -> http::Request<Chu
         .uri({
             let (p, q) = target_of(id, spec.target);
             match q {
-                Some(q) => format!("http://s{srv}.test{p}?{q}"),
-                None => format!("http://s{srv}.test{p}"),
+                Some(q) => format!("http://{}{p}?{q}", authority_of(case.same_host, srv)),
+                None => format!("http://{}{p}", authority_of(case.same_host, srv)),
             }
         })
         .header("x-id", id)
@@ -1106,7 +1131,7 @@ pub fn run_net_case(case: &NetCase) -> Result<Obs, String> {
             for s in 0..nsrv {
                 let (client, incoming) = hyperdriver::stream::duplex::pair();
                 routes.push(client);
-                let ctx = Arc::new(SrvCtx { obs: obs.clone(), server: s, reqs: case.reqs.clone(), upgrades: case.reqs.iter().map(|r| is_upgrade(&case, r)).collect(), redirects: case.reqs.iter().map(|r| redirect_target(&case, r)).collect() });
+                let ctx = Arc::new(SrvCtx { obs: obs.clone(), server: s, reqs: case.reqs.clone(), upgrades: case.reqs.iter().map(|r| is_upgrade(&case, r)).collect(), redirects: case.reqs.iter().map(|r| redirect_target(&case, r)).collect(), same_host: case.same_host });
                 let shutdown = case.shutdown.filter(|(srv, _)| *srv as usize % nsrv == s).map(|(_, ms)| ms as u64);
                 let on_acc = shutdown.and(case.shutdown_on_accept).map(|k| k as usize);
                 let base = hyperdriver::Server::builder::<hyperdriver::Body>().with_incoming(incoming);
@@ -1175,7 +1200,7 @@ pub fn run_net_case(case: &NetCase) -> Result<Obs, String> {
                 let req = http::Request::builder()
                     .method("GET")
                     .version(version)
-                    .uri(format!("http://s{s}.test/probe"))
+                    .uri(format!("http://{}/probe", authority_of(case.same_host, s)))
                     .body(ChunkBody::default())
                     .unwrap();
                 let fut = async {
